@@ -113,7 +113,12 @@ func (rn *runner) gserve(gi *ginst, op *Op) {
 	}
 	gi.e.faults = map[string]string(op.Faults)
 	req := mkRequest(op.Method, op.Path, op.Host, op.Hdr)
+	if len(op.Faults) == 0 { // every plain request is also issued once more from inside its own handler (see env.nest)
+		// (a DIFFERENT path: an inner request equal to the outer one would leave a wrongly shared context looking right)
+		gi.e.nest = func() { hd.ServeHTTP(newRecW(), mkRequest(op.Method, op.Path+"/zz9", op.Host, op.Hdr)) }
+	}
 	o := gi.e.serve(hd, req)
+	gi.e.nest = nil
 	gi.e.faults = nil
 	rn.stats.exec++
 	rn.emit(obj("ev", js(op.Op), "inst", js(op.Inst), "method", js(op.Method), "path", js(op.Path), "host", js(op.Host),
